@@ -28,7 +28,12 @@ def sim(p1: int, r1: int, p2: int, r2: int, cs: int, cn: int, cs2: int, cn2: int
     hi = base + int(S.get('slack', 6))
     maxrank = int(S.get('maxrank', 2))
     dev: dict = {}
-    a = rt.P(p1, -1, hi if K >= 1 else -1)          # -1 = no deviation
+    lo1, hi1 = -1, (hi if K >= 1 else -1)           # -1 = no deviation
+    if 'p1_shard' in S and K >= 1:
+        # a big obligation is cut into shards by the position of the FIRST deviation; the cut points
+        # balance the number of (p1, p2) pairs; the shards' ranges tile [-1, hi] exactly
+        lo1, hi1 = p1_bounds(hi, int(S['p1_shard'][0]), int(S['p1_shard'][1]))
+    a = rt.P(p1, lo1, hi1)
     if a is None:
         return True
     if a >= 0:
@@ -67,6 +72,11 @@ def sim(p1: int, r1: int, p2: int, r2: int, cs: int, cn: int, cs2: int, cn2: int
     if fp is not None:
         return rt.fail(fp)
     return True
+
+
+def p1_bounds(hi: int, j: int, n: int) -> tuple:
+    cuts = [-2] + [int(hi * (1 - (1 - k / n) ** 0.5)) for k in range(1, n)] + [hi]
+    return cuts[j] + 1, cuts[j + 1]
 
 
 def chain_text(res: Any) -> str:
@@ -184,6 +194,11 @@ def judge(S: dict, r: dict) -> str | None:
         if len(got) != made:
             return 'counters:%d-tasks-forwarded-of-%d' % (len(got), made)
     return None
+
+
+def obs_sharded(n: int, name: str, *a: Any, **kw: Any) -> list:
+    """The obligation cut into n shards by the position of the first deviation."""
+    return [ob('%s/p1-%dof%d' % (name, j + 1, n), *a, p1_shard=[j, n], **kw) for j in range(n)]
 
 
 def ob(name: str, topo: str, shapes: list, oracle: str, K: int = 2, timeout: int = 240, **kw: Any) -> dict:
